@@ -85,6 +85,8 @@ class StmtMixin(BuiltinMixin):
 
     def st_Nonlocal(self, s, st, ctx):
         d = st.heap[ctx.frame.oid]
+        if ctx.top and d.get("$parent") is None:
+            return [(st, NORMAL)]  # a nested function verified on its own: its free variables live in its entry frame
         d["$nonlocal"] = tuple(d.get("$nonlocal", ())) + tuple(s.names)
         return [(st, NORMAL)]
 
@@ -365,6 +367,56 @@ class StmtMixin(BuiltinMixin):
         out.extend((s2, oc) for s2 in pending)
         return out
 
+    def st_TryStar(self, s, st, ctx):
+        """`except* E` (conservative): a raised exception group may be handled entirely, partly (handler runs, the rest is
+        re-raised) or not at all; a plain exception matching E is handled, others propagate."""
+        out = []
+        for s2, oc in self.exec_block(s.body, st, ctx):
+            if isinstance(oc, Raise):
+                pending = [(s2, oc)]
+                for h in s.handlers:
+                    hc = self.handler_classes(h, s2, ctx)
+                    nxt = []
+                    for s3, oc3 in pending:
+                        for s4, is_group in self.split_exc(s3, oc3.exc, PyClass(BaseExceptionGroup)):
+                            if is_group:
+                                variants = [("full", s4), ("partial", s4.clone()), ("none", s4.clone())]
+                            else:
+                                variants = [("plain", s4)]
+                            for kind, s5 in variants:
+                                if kind == "none":
+                                    nxt.append((s5, oc3))
+                                    continue
+                                if kind == "plain":
+                                    parts = self.split_exc(s5, oc3.exc, hc)
+                                else:
+                                    parts = [(s5, True)]
+                                for s6, match in parts:
+                                    if not match:
+                                        nxt.append((s6, oc3))
+                                        continue
+                                    grp = self.make_exc(s6, PyClass(BaseExceptionGroup), ())
+                                    if h.name:
+                                        self.assign_name(h.name, grp, s6, ctx)
+                                    for s7, oc7 in self.exec_block(h.body, s6, ctx.sub(handling=ctx.handling + (oc3.exc,))):
+                                        if isinstance(oc7, Normal) and kind == "partial":
+                                            out.append((s7, oc3))
+                                        else:
+                                            out.append((s7, oc7))
+                    pending = nxt
+                out.extend(pending)
+            elif isinstance(oc, Normal) and s.orelse:
+                out.extend(self.exec_block(s.orelse, s2, ctx))
+            else:
+                out.append((s2, oc))
+        if not s.finalbody:
+            return out
+        final = []
+        for s2, oc in out:
+            for s3, oc2 in self.exec_block(s.finalbody, s2, ctx):
+                final.append((s3, oc if isinstance(oc2, Normal) else oc2))
+        return final
+
     # ------------------------------------------------------------------ with
     def st_With(self, s, st, ctx):
         return self.exec_with_items(list(s.items), s.body, st, ctx, False, s.lineno)
@@ -541,6 +593,13 @@ class StmtMixin(BuiltinMixin):
         for oid, f in sorted(W):
             if oid in st.heap and f in st.heap[oid]:
                 cur = st.heap[oid][f]
+                if META[oid].kind == "list" and f in ("items", "$len"):
+                    # a list mutated in the loop: from here on only its (symbolic, non-negative) length is known
+                    n = smt.fresh("listlen", smt.I)
+                    st.assume(n >= 0)
+                    st.heap[oid]["$len"] = n
+                    st.heap[oid]["items"] = ()
+                    continue
                 if META[oid].kind == "bytebuf" and f == "data":
                     new = smt.fresh("data", smt.Bytes)
                     st.assume(smt.L(new) == smt.L(cur))
@@ -647,7 +706,18 @@ class StmtMixin(BuiltinMixin):
             def body_fn(s2):
                 i = s2.heap[ctx.frame.oid][idx_name]
                 res = []
-                for s3, oc1 in self.assign_target(s.target, it[i], s2, ctx):
+                elem = it[i]
+                if isinstance(s.target, (ast.Tuple, ast.List)) and elem.sort() == smt.Obj:
+                    # an opaque record unpacked into names: projections typed by the contract's locals_types
+                    from .interp_call import ufunc
+                    from .values import sort_of_type
+                    lt = ctx.contract.locals_types if ctx.contract else {}
+                    parts = []
+                    for j, te in enumerate(s.target.elts):
+                        tname = lt.get(te.id, "obj") if isinstance(te, ast.Name) else "obj"
+                        parts.append(ufunc(f"proj{j}_{tname}", [smt.Obj], sort_of_type(tname))(elem))
+                    elem = tuple(parts)
+                for s3, oc1 in self.assign_target(s.target, elem, s2, ctx):
                     if not isinstance(oc1, Normal):
                         res.append((s3, oc1))
                         continue
